@@ -1,6 +1,6 @@
 (* C05 — Buffered mode is transparent and defers all writes to the outermost exit.  Property theorems only. *)
 From Coq Require Import List Bool ZArith.
-From SC Require Import Model.Val Model.Plain Model.Ops Model.Buffer Proofs.TreeDefs Proofs.BufferDefs Proofs.BufferSim Corr.KBuf.
+From SC Require Import Model.Val Model.Plain Model.Ops Model.Valid Model.Class Model.Tree Model.Buffer Proofs.TreeDefs Proofs.BufferDefs Proofs.BufferSim Proofs.Bridge Corr.KBuf.
 Import ListNotations.
 Local Open Scope Z_scope.
 
@@ -86,3 +86,15 @@ Theorem C05_merge : forall old new, wf_val old = true -> wf_val new = true ->
   VEq (vmerge old new) new /\ wf_val (vmerge old new) = true.
 Proof. exact vmerge_VEq. Qed.
 Print Assumptions C05_merge.
+
+(* the two model layers agree: the merge of the flat buffer model (`vmerge`, on plain data) IS the in-place merge of
+   the object tree of the unbuffered machine (`upd`, Model/Tree.v) seen through `to_base` - exact equality, key order
+   included - for every tree of the backend's classes and every valid new content of the same kind *)
+Theorem C05_buffer_merge_is_tree_merge : forall T b L data n nx n' nx',
+  backend_has_both T b = true -> uniform_backend T b L = true -> node_in_backend T b n ->
+  val_ok L data = true -> wf_val data = true -> node_keys_unique n = true -> leaves_scalar n = true ->
+  node_is_container n = true -> node_kind n = kind_of data ->
+  upd T data n nx = (n', nx', None) ->
+  to_base n' = vmerge (to_base n) data.
+Proof. exact upd_is_vmerge. Qed.
+Print Assumptions C05_buffer_merge_is_tree_merge.
